@@ -128,7 +128,7 @@ def cases(tier, rng):
 def nontrivial(case, out):
     return 'SFired' in out
 
-STAGES = [dict(name='pairs', mode='app', coq='Check.C17c', profile=('Proofs.JudgeC17P', 'JudgeC17P.profile_C17b', 'C17_app_judgement_sound (context-type deletion branch and determinism clauses on the model)'), cases=cases, nontrivial=nontrivial, shard=10, noshrink=True, across_processes=40,
+STAGES = [dict(name='pairs', mode='app', coq='Check.C17c', profile=('Proofs.JudgeC17eP', '(fun mc => JudgeC17P.profile_C17b mc || JudgeC17eP.profile_C17eb mc)', 'C17_app_judgement_sound (context-type deletion) / C17_entity_judgement_sound (entity deletion); determinism clauses hold trivially on the model; transfer is false for them by design'), cases=cases, nontrivial=nontrivial, shard=10, noshrink=True, across_processes=40,
                exhaustive={'thorough': False, 'quick': False},
                rule='random configurations of 2-5 context types split into a kept set R and a deleted set D whose bound inputs are disjoint (different keys, different required modifier keys, different '
                     'mouse and gamepad inputs), interleaved in priority, with consuming actions, built-in and scripted conditions and modifiers, 1-2 entities, a component op or rebuild in the middle; contexts tied to different gamepads that bind the same buttons and axes (the consuming one deleted); per-player instances of one exclusive type with disjoint keys, a rebuild in the middle, one player deleted; three runs '
